@@ -165,6 +165,9 @@ def expr_code(e):
     if k == "keccakp":  # keccak256(abi.encodePacked(address(a), uint256(b))): 52 bytes, packed-key mapping
         # operands are evaluated first (they may use the scratch memory themselves)
         return (expr_code(e[2]) + expr_code(e[1]) + [("push", 96), "SHL", "PUSH0", "MSTORE", ("push", 20), "MSTORE", ("push", 52), "PUSH0", "SHA3"])
+    if k == "keccak4":  # keccak256(a . b . c . slot): a mapping with a 96-byte key (128-byte preimage)
+        return (expr_code(e[4]) + expr_code(e[3]) + expr_code(e[2]) + expr_code(e[1]) +
+                ["PUSH0", "MSTORE", ("push", 32), "MSTORE", ("push", 64), "MSTORE", ("push", 96), "MSTORE", ("push", 128), "PUSH0", "SHA3"])
     if k == "keccak2":  # keccak256(abi.encode(a, b))
         return expr_code(e[2]) + expr_code(e[1]) + ["PUSH0", "MSTORE", ("push", 32), "MSTORE", ("push", 64), "PUSH0", "SHA3"]
     # operators: push operands in reverse so that the first operand ends on top
